@@ -1,8 +1,8 @@
 (* C02 — compiled code matches definitional semantics; compiler choices are invisible.
-   ONLY theorem statements; each is closed by [exact] of a lemma of C02/Proofs.v. *)
+   ONLY theorem statements; each is closed by [exact] of a lemma of C02/Proofs*.v. *)
 From Coq Require Import List ZArith NArith Bool.
 Import ListNotations.
-From Verif.C02 Require Import Model Proofs.
+From Verif.C02 Require Import Model Proofs ProofsPos ProofsCF ProofsMin.
 
 (* 1. Every allocation of bindings to frame slots / stash cells that respects goja's rule
       ("a binding referenced from inside an inner function lives in the stash") is observationally
@@ -13,18 +13,26 @@ Theorem allocation_invisible : forall al n p, valid_alloc al p = true ->
   run_slots al n p = run_env n p.
 Proof. exact (fun al n p => Proofs.allocation_invisible_pm al PSpec n p). Qed.
 
-(* 1'. the same under each variant of statement-position evaluation *)
+(* 1'. the same under the statement-position variant of evaluation *)
 Theorem allocation_invisible_pm : forall al pm n p, valid_alloc al p = true ->
   obs_of (run_prog (Imem al) pm n p) = obs_of (run_prog Smem pm n p).
 Proof. exact Proofs.allocation_invisible_pm. Qed.
 
-(* 2. non-vacuity: "everything in the stash" is always valid ... *)
+(* 2. the two extreme allocations are valid for EVERY program, so 1 is not vacuous:
+      everything in the stash ... *)
 Theorem alloc_all_stash_valid : forall p, valid_alloc alloc_all_stash p = true.
 Proof. exact Proofs.alloc_all_stash_valid. Qed.
 
-(* ... and on a program with a loop variable captured per iteration the minimal allocation is valid and
-   mixes stash and frame; "everything in a frame" is invalid there and really misbehaves *)
-Theorem alloc_minimal_valid_example :
+(* ... and the minimal one (stash exactly what some reference reaches across a function boundary) *)
+Theorem alloc_minimal_valid : forall p, valid_alloc (alloc_minimal p) p = true.
+Proof. exact ProofsMin.alloc_minimal_valid. Qed.
+
+Corollary alloc_minimal_invisible : forall n p, run_slots (alloc_minimal p) n p = run_env n p.
+Proof. exact (fun n p => Proofs.allocation_invisible_pm _ PSpec n p (ProofsMin.alloc_minimal_valid p)). Qed.
+
+(* on a program with a loop variable captured per iteration the minimal allocation mixes stash and frame;
+   "everything in a frame" is invalid there and really misbehaves *)
+Theorem alloc_example :
   valid_alloc (alloc_minimal p_example) p_example = true /\
   alloc_minimal p_example 2%N = true /\ alloc_minimal p_example 1%N = false /\
   run_env 50 p_example = ([ONum 1%Z true], ONormal (Some OUndef)) /\
@@ -32,29 +40,40 @@ Theorem alloc_minimal_valid_example :
   snd (run_slots (fun _ => false) 50 p_example) = OBadSlot.
 Proof. exact Proofs.example_minimal_valid. Qed.
 
-(* 3. expression vs statement position: the result-unused variant of ++/-- that keeps ToNumber has the
-      same effects and exceptions as the value-position one (any memory model) ... *)
-Theorem position_invisible_incdec_partial : forall MM n c rho pre inc x s,
-  let r1 := eval MM PUnused (S n) c rho true (EIncDec pre inc x) s in
-  let r2 := eval MM PUnused (S n) c rho false (EIncDec pre inc x) s in
-  snd r1 = snd r2 /\
-  match fst r1, fst r2 with inl _, inl _ => True | inr e1, inr e2 => e1 = e2 | _, _ => False end.
-Proof. exact Proofs.position_invisible_incdec. Qed.
+(* 3. expression vs statement position: evaluating every discarded-result expression by the
+      "putOnStack = false" variant (for ++/--: no old value kept) gives, for EVERY program and fuel, the
+      same log, the same exceptions and the same returned values; only normal completion values — the
+      very values that are discarded — may differ. *)
+Theorem position_invisible : forall n p, erase_nv (run_env_pm PUnused n p) = erase_nv (run_env n p).
+Proof. exact ProofsPos.position_invisible. Qed.
 
-(* ... whereas goja's transcription (ToNumber dropped, vm.go _inc/_dec on a non-int) is observably
-   different: finding F7 *)
-Theorem incdec_unused_refuted : exists p n, run_env_pm PGoja n p <> run_env n p.
-Proof. exact Proofs.incdec_unused_refuted. Qed.
+Theorem position_example :
+  run_env_pm PUnused 10 p_incdec = ([ONum 3%Z true], ONormal (Some OUndef)) /\
+  run_env 10 p_incdec = ([ONum 3%Z true], ONormal (Some OUndef)).
+Proof. exact ProofsPos.position_example. Qed.
 
-(* 4. goja's order of checks for a store to a const binding in its TDZ: TypeError instead of ReferenceError *)
-Theorem const_tdz_assign_refuted : exists p n, run_env_pm PGojaC n p <> run_env n p.
-Proof. exact Proofs.const_tdz_assign_refuted. Qed.
+(* 4. constant folding (operators on literals, ?: && || with a literal test, inside function bodies too)
+      preserves the observation of every program whose run does not exhaust the fuel ... *)
+Theorem constfold_sound : forall n p, snd (run_env n p) <> OFuelOut ->
+  run_env n (cf_stmt p) = run_env n p.
+Proof. exact ProofsCF.constfold_sound. Qed.
 
-(* 5. constant folding of && with a constant falsy left operand leaves a value on the operand stack
-      when the result is unused (finding F18); the || sibling is balanced *)
-Theorem constfold_goja_refuted : exists putOnStack left_truthy,
-  goja_and_const_left putOnStack left_truthy <> want putOnStack.
-Proof. exact Proofs.constfold_goja_refuted. Qed.
+Theorem constfold_example :
+  cf_stmt p_cf <> p_cf /\
+  run_env 20 (cf_stmt p_cf) = run_env 20 p_cf /\
+  fst (run_env 20 p_cf) = [OStr 6%N; ONum 3%Z true].
+Proof. exact ProofsCF.constfold_example. Qed.
+
+(* ... which needs: more fuel never changes a run that did not run out (any memory model, any mode) *)
+Theorem fuel_monotone : forall MM pm n c rho u e s,
+  nofuel MM (eval MM pm n c rho u e s) -> eval MM pm (S n) c rho u e s = eval MM pm n c rho u e s.
+Proof. exact (fun MM pm n => proj1 (ProofsCF.mono_all MM pm n)). Qed.
+
+(* 5. goja's emission of && / || with a constant left operand leaves exactly the wanted number of
+      values on the operand stack (after fix 06cb082 for &&) *)
+Theorem goja_and_const_left_balanced : forall putOnStack left_truthy,
+  goja_and_const_left putOnStack left_truthy = want putOnStack.
+Proof. exact Proofs.goja_and_const_left_balanced. Qed.
 
 Theorem goja_or_const_left_balanced : forall putOnStack left_truthy,
   goja_or_const_left putOnStack left_truthy = want putOnStack.
@@ -63,9 +82,13 @@ Proof. exact Proofs.goja_or_const_left_balanced. Qed.
 Print Assumptions allocation_invisible.
 Print Assumptions allocation_invisible_pm.
 Print Assumptions alloc_all_stash_valid.
-Print Assumptions alloc_minimal_valid_example.
-Print Assumptions position_invisible_incdec_partial.
-Print Assumptions incdec_unused_refuted.
-Print Assumptions const_tdz_assign_refuted.
-Print Assumptions constfold_goja_refuted.
+Print Assumptions alloc_minimal_valid.
+Print Assumptions alloc_minimal_invisible.
+Print Assumptions alloc_example.
+Print Assumptions position_invisible.
+Print Assumptions position_example.
+Print Assumptions constfold_sound.
+Print Assumptions constfold_example.
+Print Assumptions fuel_monotone.
+Print Assumptions goja_and_const_left_balanced.
 Print Assumptions goja_or_const_left_balanced.
